@@ -96,11 +96,14 @@ XMLUCS4Transcoder::transcodeFrom(const  XMLByte* const          srcData
 
         //
         //  Values beyond the last Unicode code point cannot be represented
-        //  as a surrogate pair. Hand back what was decoded so far, so that
-        //  the caller comes back with the bad value in front, and reject
-        //  it then.
+        //  as a surrogate pair, and the surrogate code points themselves
+        //  are not characters: passed through, two of them would read as
+        //  one supplementary character. Hand back what was decoded so far,
+        //  so that the caller comes back with the bad value in front, and
+        //  reject it then.
         //
-        if (nextVal > 0x10FFFF)
+        if ((nextVal > 0x10FFFF)
+        ||  ((nextVal >= 0xD800) && (nextVal <= 0xDFFF)))
         {
             if (outPtr != toFill)
                 break;
